@@ -87,6 +87,12 @@ WellPosed(br, ref) == /\ br # <<>> /\ ref \in Used(br)
                       /\ \A i \in DOMAIN br : br[i].n1 # br[i].n2
                       /\ ~CIsZero(Det(MNA(br, ref), Dim(br, ref)))
 Solve(br, ref) == Cramer(MNA(br, ref), Dim(br, ref), RHS(br, ref))
+\* the same in one pass: <<>> if the network is not well posed, else the solution vector
+\* (saves evaluating the determinant twice; used by the bounded models)
+Structural(br, ref) == br # <<>> /\ ref \in Used(br) /\ \A i \in DOMAIN br : br[i].n1 # br[i].n2
+SolveOpt(br, ref) == IF ~Structural(br, ref) THEN <<>> ELSE
+    LET M == MNA(br, ref) n == Dim(br, ref) d == Det(M, n) IN
+    IF CIsZero(d) THEN <<>> ELSE LET b == RHS(br, ref) IN [j \in 1..n |-> CDiv(Det(ReplaceCol(M, n, j, b), n), d)]
 
 \* quantities read off a solution vector s
 Phi(br, ref, s, n) == IF n = ref THEN C0 ELSE s[Rank(NZ(br, ref), n)]
@@ -111,6 +117,8 @@ IsSolution(br, ref, phi, flow) ==
     /\ CIsZero(phi[ref])
     /\ \A n \in Used(br) : KCL(br, flow, n)                                  \* reference node included
     /\ \A i \in DOMAIN br : ElementLaw(br[i].e, CSub(phi[br[i].n1], phi[br[i].n2]), flow[i])
+IsSolutionVec(br, ref, s) ==
+    IsSolution(br, ref, [n \in Used(br) |-> Phi(br, ref, s, n)], [i \in DOMAIN br |-> Flow(br, ref, s, i)])
 SolvedIsSolution(br, ref) ==
     LET s == Solve(br, ref) IN
     IsSolution(br, ref, [n \in Used(br) |-> Phi(br, ref, s, n)], [i \in DOMAIN br |-> Flow(br, ref, s, i)])
